@@ -488,7 +488,27 @@ impl Session {
         let unchoked_num = self.unchoked_num();
 
         let peer = self.peers.get_mut(addr).ok_or(Error::PeerNotFound)?;
-        let cmd = peer.handle_bitfield(chosen_index, unchoked_num);
+        let cmd = match peer.handle_bitfield(chosen_index, unchoked_num) {
+            // Unchoke is sent the same (ordered) way as decisions of choke rotation. Otherwise
+            // older Choke, still waiting in handler's queue, could be sent after this Unchoke
+            BitfieldCmd::SendState {
+                with_am_unchoked: true,
+                am_interested,
+            } => {
+                let mut am_choked_map: HashMap<String, bool> = HashMap::new();
+                am_choked_map.insert(addr.clone(), false);
+                let _ = self
+                    .general_channels
+                    .broad
+                    .send(BroadCmd::SendOwnState { am_choked_map });
+
+                BitfieldCmd::SendState {
+                    with_am_unchoked: false,
+                    am_interested,
+                }
+            }
+            cmd => cmd,
+        };
         let _ = &resp_ch.send(cmd);
 
         Ok(true)
